@@ -8,6 +8,7 @@
 //! trusted: env: PaymentConstraints {2 fields} skeleton; BlindedHopFeatures opaque with external_body empty()/requires_unknown_bits_from() (unconstrained)
 //! trusted: env: struct UpdateAddHTLC{amount_msat,cltv_expiry}, ChannelConfig{3 fields}, PaymentRelay{3 fields} are field skeletons of the real structs; enum LocalHTLCFailureReason restricted to the 5 variants used; FundedChannel/ChannelContext self skeleton (R5) whose config()/prev_config() accessors are external_body returning the two stored configs
 //! trusted: R15 (deep slice): do_chain_event sweeps pending_intercepted_htlcs with a retain closure under a mutex; the unit extracts the closure's keep/fail-back test verbatim as a function of (htlc, height); the pushed failure and the log are dropped; PendingAddHTLCInfo/PendingHTLCInfo skeletons {outgoing_cltv_value}
+//! trusted: R15 (deep slice): do_best_block_updated times out AddHTLC entries of the holding cell in a retain closure; the unit extracts the limit and the keep/drop test verbatim as a function of (cltv_expiry, height)
 //! assume: intercepted forwards have outgoing_cltv_value >= HTLC_FAIL_BACK_BUFFER (they passed check_incoming_htlc_cltv); otherwise the u32 subtraction in the sweep underflows
 //! assume: cur_height <= 2^31-1 (block heights)
 //! assume: Logger callbacks do not panic (R3)
@@ -249,6 +250,25 @@ pub struct PendingAddHTLCInfo { pub forward_info: PendingHTLCInfo }
     HTLC_FAIL_BACK_BUFFER
 //@with
     LATENCY_GRACE_PERIOD_BLOCKS
+//@end
+// ---- when an HTLC still waiting in the holding cell is given up (deep R15 slice of FundedChannel::do_best_block_updated) ----
+//@extract lightning/src/ln/channel.rs :: impl FundedChannel :: fn do_best_block_updated
+//@slice R15
+    let unforwarded_htlc_cltv_limit = $limit; self.context.holding_cell_htlc_updates.retain(|htlc_update| { match htlc_update { &HTLCUpdateAwaitingACK::AddHTLC { ref payment_hash, ref source, ref cltv_expiry, .. } => { if $cond { $push:any false } else { true } }, _ => true } });
+//@with
+    fn holding_cell_add_is_kept(cltv_expiry: &u32, height: u32) -> bool {
+        let unforwarded_htlc_cltv_limit = $limit;
+        if $cond { false } else { true }
+    }
+//@ret kept
+//@requires
+    height <= 0x7fff_ffff,
+//@ensures P C08 an-add-still-in-the-holding-cell-is-released-only-while-it-passes-the-same-outgoing-expiry-test-as-a-fresh-forward
+    kept <==> *cltv_expiry as int > height + LATENCY_GRACE_PERIOD_BLOCKS,
+//@mutant holding_cell_add_kept_at_the_limit
+    *cltv_expiry <= unforwarded_htlc_cltv_limit
+//@with
+    *cltv_expiry < unforwarded_htlc_cltv_limit
 //@end
 // (P, C08) with the heights above, the forwarding race of lemma_forward_race is the one the monitor really runs:
 // downstream silent => on chain at outgoing + LATENCY; upstream claimable (preimage known) => on chain from incoming - CLTV_CLAIM_BUFFER
